@@ -3,6 +3,7 @@ CONSTANTS
   PtrRule = "start"
   CharStrGuard = FALSE
   Alphabet = {0, 1, 2, 64, 192}
+  EmitMax = 0
   MaxLen = 4
 INVARIANTS NoPanic NoHang
 CHECK_DEADLOCK FALSE
